@@ -384,15 +384,12 @@ def _real_test(
         if add_inductance:
             A[:, -1] = (1 / w) if admittance else w
 
-        b = _generate_b_vector(
-            "imaginary",
-            (
-                Z_exp ** (-1 if admittance else 1)
-                - circuit.get_impedances(f) ** (-1 if admittance else 1)
-            )
-            ** (-1 if admittance else 1),
-            admittance,
-        )
+        # The difference between the immittances is used directly instead
+        # of being inverted twice, which fails when the difference is zero.
+        b = (
+            Z_exp ** (-1 if admittance else 1)
+            - circuit.get_impedances(f) ** (-1 if admittance else 1)
+        ).imag
 
         corrections: NDArray[float64] = _solve(A, b)
 
